@@ -92,6 +92,12 @@ h("VerifGrpcMTLS", SV, AU, "FullMethod any ASCII string; peer: none / not TLS / 
 
 h("VerifHTTPAuthWiring", ".", ["zz_verif_main_auth.go"], "all 2^5 combinations of {htpasswd, mTLS, allow_unauthenticated_reads, endpoint metrics, idle timeout} that validateConfig admits; request to /status, /metrics or / (GET, HEAD, PUT) with Basic header present/absent, user known or not, password check arbitrary, TLS state none / unverified / verified", "startHttpServer wires every route behind the configured authentication", unwind=16)
 
+BS = ["zz_verif_bytestream.go"]
+BSB = "upload to blobs/<hash>/5 in <=%d messages, each of symbolic length 0..8; first write_offset any int64; later resource names empty/same/changed; finish_write on the last message or not; stream ends with EOF or a transport error; blob pre-existing or not; stub cache accepts iff exactly the declared bytes arrive; 3 goroutines, <=2 preemptions, every ready select case explored"
+h("VerifBytestreamWrite2", SV, BS, BSB % 2, "ByteStream.Write: committed_size, early return for existing blobs, refusal of malformed uploads, no goroutine left", unwind=24)
+h("VerifBytestreamWrite3", SV, BS, BSB % 3, "as VerifBytestreamWrite2", unwind=24, timeout_s=1800)
+h("VerifQueryWriteStatus", SV, BS, "-", "QueryWriteStatus: complete with full size exactly when present")
+
 # property -> (quick harnesses, additional thorough harnesses, assumptions, outside)
 CODEC = "zstd codec replaced by a contract stub: frames self-delimiting, Decode(Encode(x)) = x, anything else fails"
 HASH = "sha256 replaced by a provenance model: collision-free, digest equals the declared hash iff the hashed bytes are exactly the declared blob"
@@ -113,6 +119,7 @@ P = {
  "C12": (["VerifProxyGetAC", "VerifProxyGetCasRaw", "VerifProxyGetCasZstd", "VerifPutRawProxy"], ["VerifProxyGetCasZstdZ", "VerifPutCasZstdProxy", "VerifPutCasRawProxy"], [FSM, CODEC, HASH, "the backend is an arbitrary cache.Proxy stub"], ["minio/azure/gcs SDK calls", "real HTTP body semantics"]),
  "C13": (["VerifGrpcBasicAuth", "VerifGrpcBasicAuthAccepts", "VerifGrpcMTLS", "VerifHTTPAuthWiring"], [], ["auth.CheckSecret is an arbitrary predicate", "strings are ASCII"], ["htpasswd hash checking, TLS handshake and certificate verification, LDAP", "whether grpc-go calls the interceptors for every method"]),
  "C14": (["VerifReadArbitrary2", "VerifGetCasZstd", "VerifGetSpecial"], ["VerifReadArbitrary3", "VerifGetCasZstdAsZstd", "VerifGetCasRawAsZstd", "VerifProxyGetCasZstd"], [FSM, CODEC], ["panics inside stubbed libraries", "resource exhaustion by volume"]),
+ "C16": (["VerifBytestreamWrite2", "VerifQueryWriteStatus"], ["VerifBytestreamWrite3"], ["disk.Cache replaced by a contract stub (Put consumes the reader and accepts exactly the declared bytes)"], ["grpc-go's own stream behaviour", "more than 3 messages", "more than 2 preemptive context switches"]),
  "C17": (["VerifLRUReserve3", "VerifLRURemove", "VerifLRUAdd3", "VerifPutAC", "VerifProxyGetAC"], ["VerifLRUReserve4", "VerifPutCasZstd", "VerifPutCasRaw", "VerifProxyGetCasRaw"], [FSM], ["real unlink latency"]),
  "C18": (["VerifPutAC", "VerifPutCasRaw", "VerifContains", "VerifProxyGetAC"], ["VerifPutCasZstd", "VerifProxyGetCasRaw", "VerifProxyGetCasZstd"], [FSM, HASH], ["transport-level message size limits"]),
  "C20": (["VerifWriteZstd2", "VerifReadUncompressed4", "VerifReadZstd4", "VerifReadIdentity"], ["VerifWriteZstd3", "VerifReadUncompressed6", "VerifReadZstd6"], [CODEC, FSM], ["that chunk payloads are standard zstd frames", "files with more table entries than the bound"]),
